@@ -3,7 +3,7 @@
 From Coq Require Import List ZArith Bool String Lia Floats.PrimFloat.
 From LBFGSB Require Import Base.Res Base.Hoare Base.FloatOrd Model.SF Model.FloatVec Model.Driver Generated.StopTests Generated.Consts
   Proofs.DriverReport Proofs.DriverReportRun Proofs.DriverFuel.
-From LBFGSB Require Generated.Base.
+From LBFGSB Require Generated.Base Generated.LoopControl.
 Import ListNotations.
 Open Scope Z_scope.
 
@@ -82,6 +82,29 @@ Theorem C04_leaf_call_sites_from_source :
   Generated.Base.is_boxed_src = "not is_any_inf([lb, ub])"%string /\ Generated.Base.projgr_call_sites_src = ["projgr(x, grad, lb, ub)"%string] /\
   Generated.Base.clip2bounds_call_sites_src = ["x = clip2bounds(x0, lb, ub)"%string].
 Proof. repeat split; reflexivity. Qed.
+
+(* TRANSLATION TIE for the control of the outer loop: the test of `while`, the if / elif chain that writes the report after the
+   loop, and the budget handed to the line search are translated from main.py on every run (Generated/LoopControl.v: float,
+   integer and boolean expressions; the three constants of every branch of the chain) and ARE the model's guard, classify and
+   ls_cap - classify changes nothing else. *)
+Module LC := LBFGSB.Generated.LoopControl.
+Theorem C04_guard_from_source : forall (c : cfg) (gt : float) (s : lst),
+  guard c gt s = LC.loop_guard (projgr (s_x s) (s_g s) (lb c) (ub c)) gt (s_nit s) (maxiter c) (SF.nfev _ _ _ _ (s_sf s)) (maxfun c) (s_succ s).
+Proof. reflexivity. Qed.
+
+Theorem C04_final_report_from_source : forall (c : cfg) (gt : float) (s : lst),
+  let s' := classify c gt s in
+  (msg_string (s_msg s'), s_succ s', s_warn s')
+  = LC.final_report (projgr (s_x s) (s_g s) (lb c) (ub c)) gt (s_nit s) (maxiter c) (SF.nfev _ _ _ _ (s_sf s)) (maxfun c) (msg_string (s_msg s), s_succ s, s_warn s)
+  /\ (s_x s', s_f s', s_g s', s_X s', s_G s', s_mats s', s_nit s', s_sf s') = (s_x s, s_f s, s_g s, s_X s, s_G s, s_mats s, s_nit s, s_sf s).
+Proof.
+  intros c gt s. cbv zeta. unfold classify, LC.final_report.
+  destruct (leb _ gt); [split; reflexivity|]. destruct (s_nit s >=? maxiter c); [split; reflexivity|].
+  destruct (_ >=? maxfun c); split; reflexivity.
+Qed.
+
+Theorem C04_ls_budget_from_source : forall (c : cfg) (s : lst), ls_cap c s = LC.ls_budget (maxls c) (maxfun c) (SF.nfev _ _ _ _ (s_sf s)).
+Proof. reflexivity. Qed.
 
 Print Assumptions C04_report.
 Print Assumptions C04_fuel_suffices.
